@@ -648,7 +648,11 @@ def render_schema(s: dict, ver: str = "3.0.3") -> dict:
                 out = {**own, **addl_out, "allOf": members}
             else:
                 if props or len(members) < 2:
-                    members = members + [own]
+                    if s.get("req_split") and own.get("required") and not s.get("extra_required"):
+                        own_wo = {kk: vv for kk, vv in own.items() if kk != "required"}
+                        members = members + [own_wo, {"required": own["required"]}]
+                    else:
+                        members = members + [own]
                 out = {"allOf": members, **addl_out}
         else:
             out = {**own, **addl_out}
